@@ -113,36 +113,61 @@ func (g *Gen) readKinds() {
 }
 
 func (g *Gen) readWiring() {
-	fd := g.funcs["writeStaticCode"]
-	if fd == nil {
+	if g.funcs["writeStaticCode"] == nil {
 		g.problem("builder.writeStaticCode not found")
 		return
 	}
-	ast.Inspect(fd, func(n ast.Node) bool {
-		cl, ok := n.(*ast.CompositeLit)
-		if !ok {
+	// the parameter struct handed to the template: in writeStaticCode or a builder method it calls
+	seen := map[string]bool{}
+	var visit func(name string)
+	visit = func(name string) {
+		fd := g.funcs[name]
+		if fd == nil || fd.Body == nil || seen[name] || len(g.ParamWiring) > 0 {
+			return
+		}
+		seen[name] = true
+		var calls []string
+		defer func() {
+			for _, c := range calls {
+				visit(c)
+			}
+		}()
+		ast.Inspect(fd, func(n ast.Node) bool {
+			if len(g.ParamWiring) > 0 {
+				return false
+			}
+			switch x := n.(type) {
+			case *ast.CallExpr:
+				if s, ok := x.Fun.(*ast.SelectorExpr); ok {
+					if _, ok := g.funcs[s.Sel.Name]; ok {
+						calls = append(calls, s.Sel.Name)
+					}
+				}
+			case *ast.CompositeLit:
+				if _, ok := x.Type.(*ast.StructType); !ok {
+					return true
+				}
+				for _, e := range x.Elts {
+					kv, ok := e.(*ast.KeyValueExpr)
+					if !ok {
+						continue
+					}
+					k, ok := kv.Key.(*ast.Ident)
+					if !ok {
+						continue
+					}
+					if s, ok := kv.Value.(*ast.SelectorExpr); ok {
+						g.ParamWiring[k.Name] = s.Sel.Name
+					} else {
+						g.ParamWiring[k.Name] = "?"
+					}
+				}
+				return false
+			}
 			return true
-		}
-		if _, ok := cl.Type.(*ast.StructType); !ok {
-			return true
-		}
-		for _, e := range cl.Elts {
-			kv, ok := e.(*ast.KeyValueExpr)
-			if !ok {
-				continue
-			}
-			k, ok := kv.Key.(*ast.Ident)
-			if !ok {
-				continue
-			}
-			if s, ok := kv.Value.(*ast.SelectorExpr); ok {
-				g.ParamWiring[k.Name] = s.Sel.Name
-			} else {
-				g.ParamWiring[k.Name] = "?"
-			}
-		}
-		return false
-	})
+		})
+	}
+	visit("writeStaticCode")
 }
 
 // Flags gives the value of builder boolean fields for one variant.
@@ -156,6 +181,9 @@ type emitter struct {
 	fnID    string
 	subst   map[string]func() string // callee method name -> replacement emission
 	sb      *strings.Builder
+	depth   int
+	active  map[string]bool
+	env     map[types.Object]any // parameters of inlined helpers bound to constant arguments
 }
 
 func (e *emitter) valueFor(arg ast.Expr) any {
@@ -164,6 +192,14 @@ func (e *emitter) valueFor(arg ast.Expr) any {
 		if s, ok := c.Fun.(*ast.SelectorExpr); ok && s.Sel.Name == "funcName" {
 			return e.fnID
 		}
+	}
+	if id, ok := arg.(*ast.Ident); ok {
+		if v, ok := e.env[e.g.pkg.TypesInfo.Uses[id]]; ok {
+			return v
+		}
+	}
+	if tv, ok := e.g.pkg.TypesInfo.Types[arg]; ok && tv.Value != nil && tv.Value.Kind() == constant.String {
+		return constant.StringVal(tv.Value)
 	}
 	t := e.g.pkg.TypesInfo.TypeOf(arg)
 	if t == nil {
@@ -198,12 +234,25 @@ func (e *emitter) stringOf(x ast.Expr) (string, bool) {
 	return "", false
 }
 
+// isBuilderRecv reports whether x is an expression of the builder type (the receiver, whatever it is called).
+func (e *emitter) isBuilderRecv(x ast.Expr) bool {
+	t := e.g.pkg.TypesInfo.TypeOf(x)
+	if t == nil {
+		return false
+	}
+	if p, ok := t.(*types.Pointer); ok {
+		t = p.Elem()
+	}
+	n, ok := t.(*types.Named)
+	return ok && n.Obj().Name() == "builder"
+}
+
 func (e *emitter) call(c *ast.CallExpr) bool {
 	s, ok := c.Fun.(*ast.SelectorExpr)
 	if !ok {
 		return false
 	}
-	if id, ok := s.X.(*ast.Ident); !ok || id.Name != "b" {
+	if !e.isBuilderRecv(s.X) {
 		return false
 	}
 	switch s.Sel.Name {
@@ -232,6 +281,42 @@ func (e *emitter) call(c *ast.CallExpr) bool {
 		e.sb.WriteString(r())
 		return true
 	}
+	// any other builder method: its writes are part of the caller's emission
+	if fd := e.g.funcs[s.Sel.Name]; fd != nil && fd.Body != nil && e.depth < 6 && !e.active[s.Sel.Name] {
+		if e.active == nil {
+			e.active = map[string]bool{}
+		}
+		e.active[s.Sel.Name] = true
+		e.depth++
+		// bind parameters that receive constant strings (a field name passed to a shared writer)
+		var bound []types.Object
+		if fd.Type.Params != nil {
+			i := 0
+			for _, fl := range fd.Type.Params.List {
+				for _, pn := range fl.Names {
+					if i < len(c.Args) {
+						if tv, ok := e.g.pkg.TypesInfo.Types[c.Args[i]]; ok && tv.Value != nil && tv.Value.Kind() == constant.String {
+							if obj := e.g.pkg.TypesInfo.Defs[pn]; obj != nil {
+								if e.env == nil {
+									e.env = map[types.Object]any{}
+								}
+								e.env[obj] = constant.StringVal(tv.Value)
+								bound = append(bound, obj)
+							}
+						}
+					}
+					i++
+				}
+			}
+		}
+		e.stmts(fd.Body.List)
+		for _, o := range bound {
+			delete(e.env, o)
+		}
+		e.depth--
+		delete(e.active, s.Sel.Name)
+		return true
+	}
 	return false
 }
 
@@ -247,7 +332,7 @@ func endsInReturn(b *ast.BlockStmt) bool {
 func (e *emitter) flagCond(c ast.Expr) (val, known bool) {
 	switch x := c.(type) {
 	case *ast.SelectorExpr:
-		if id, ok := x.X.(*ast.Ident); ok && id.Name == "b" {
+		if e.isBuilderRecv(x.X) {
 			v, ok := e.flags[x.Sel.Name]
 			return v, ok
 		}
@@ -344,44 +429,67 @@ func (g *Gen) codeFuncs(k Kind, fnID string, withArg bool) string {
 	if fd == nil {
 		return ""
 	}
+	// the two templates of the kind: the package-level format strings named in the code writer (or in the builder
+	// methods it calls with them); the definition template has four verbs (receiver, name, parameters, body), the
+	// call wrapper two (name, arguments)
+	var funcTpl, callTpl string
+	seen := map[string]bool{}
+	var scan func(fd *ast.FuncDecl, depth int)
+	scan = func(fd *ast.FuncDecl, depth int) {
+		ast.Inspect(fd, func(n ast.Node) bool {
+			switch x := n.(type) {
+			case *ast.Ident:
+				if seen[x.Name] {
+					return true
+				}
+				if obj, ok := g.pkg.TypesInfo.Uses[x].(*types.Var); ok && obj.Parent() == g.pkg.Types.Scope() {
+					if v, ok := g.templateVar(x.Name); ok {
+						seen[x.Name] = true
+						fits := func(n int) bool {
+							args := make([]any, n)
+							for i := range args {
+								args[i] = "x"
+							}
+							return !strings.Contains(fmt.Sprintf(v, args...), "%!")
+						}
+						switch {
+						case fits(4) && !fits(3):
+							if funcTpl != "" {
+								g.problem("%s: two definition templates", k.CodeWriter)
+							}
+							funcTpl = v
+						case fits(2) && !fits(1):
+							if callTpl != "" {
+								g.problem("%s: two call templates", k.CodeWriter)
+							}
+							callTpl = v
+						}
+					}
+				}
+			}
+			return true
+		})
+	}
+	scan(fd, 0)
+	if funcTpl == "" || callTpl == "" {
+		g.problem("%s: cannot resolve the definition and call templates", k.CodeWriter)
+		return ""
+	}
 	var out strings.Builder
-	ast.Inspect(fd, func(n ast.Node) bool {
-		c, ok := n.(*ast.CallExpr)
-		if !ok {
-			return true
-		}
-		s, ok := c.Fun.(*ast.SelectorExpr)
-		if !ok || s.Sel.Name != "writeFunc" || len(c.Args) != 4 {
-			return true
-		}
-		callID, ok1 := c.Args[2].(*ast.Ident)
-		funcID, ok2 := c.Args[3].(*ast.Ident)
-		if !ok1 || !ok2 {
-			g.problem("%s: writeFunc templates are not plain identifiers", k.CodeWriter)
-			return false
-		}
-		callTpl, ok1 := g.templateVar(callID.Name)
-		funcTpl, ok2 := g.templateVar(funcID.Name)
-		if !ok1 || !ok2 {
-			g.problem("%s: cannot resolve templates %s/%s", k.CodeWriter, callID.Name, funcID.Name)
-			return false
-		}
-		body := "\treturn nil, nil"
-		switch {
-		case strings.Contains(funcTpl, "(bool, error)"):
-			body = "\treturn false, nil"
-		case strings.Contains(funcTpl, "(error)"):
-			body = "\treturn nil"
-		}
-		params, args := "", ""
-		if withArg {
-			params, args = "lbl any", `stack["lbl"]`
-		}
-		// argument order taken from writeFunc: funcTpl(recv, name, params, body); callTpl(name, args)
-		out.WriteString(fmt.Sprintf(funcTpl, "c", fnID, params, body) + "\n")
-		out.WriteString(fmt.Sprintf(callTpl, fnID, args) + "\n")
-		return false
-	})
+	body := "\treturn nil, nil"
+	switch {
+	case strings.Contains(funcTpl, "(bool, error)"):
+		body = "\treturn false, nil"
+	case strings.Contains(funcTpl, "(error)"):
+		body = "\treturn nil"
+	}
+	params, args := "", ""
+	if withArg {
+		params, args = "lbl any", `stack["lbl"]`
+	}
+	// argument order: funcTpl(recv, name, params, body); callTpl(name, args) (decided by rule C04-j on writeFunc)
+	out.WriteString(fmt.Sprintf(funcTpl, "c", fnID, params, body) + "\n")
+	out.WriteString(fmt.Sprintf(callTpl, fnID, args) + "\n")
 	return out.String()
 }
 
